@@ -812,7 +812,7 @@ def formula_grammar(table):
         fract = []
         for p1, p2 in zip(tokens[0::2], tokens[1::2]):
             if isinstance(p1, Formula):
-                f = p1.absthick * float(p2)
+                f = p1.thickness * float(p2)
                 p = p1
             else:
                 f = float(p1[0]) * LENGTH_UNITS[p1[1]]
